@@ -390,6 +390,17 @@ func (parameter *Parameter) Validate(ctx context.Context, opts ...ValidationOpti
 			return fmt.Errorf("parameter %q example and examples are mutually exclusive", parameter.Name)
 		}
 
+		// the rules of the example objects themselves hold whatever the option says about comparing their values with the schema
+		exampleNames := make([]string, 0, len(parameter.Examples))
+		for name := range parameter.Examples {
+			exampleNames = append(exampleNames, name)
+		}
+		sort.Strings(exampleNames)
+		for _, k := range exampleNames {
+			if err := parameter.Examples[k].Validate(ctx); err != nil {
+				return fmt.Errorf("%s: %w", k, err)
+			}
+		}
 		if vo := getValidationOptions(ctx); vo.examplesValidationDisabled {
 			return validateExtensions(ctx, parameter.Extensions)
 		}
@@ -405,9 +416,6 @@ func (parameter *Parameter) Validate(ctx context.Context, opts ...ValidationOpti
 			sort.Strings(names)
 			for _, k := range names {
 				v := examples[k]
-				if err := v.Validate(ctx); err != nil {
-					return fmt.Errorf("%s: %w", k, err)
-				}
 				if v.Value.Value == nil && v.Value.ExternalValue != "" {
 					continue // the value lives elsewhere: there is nothing here to check against the schema
 				}
